@@ -1102,6 +1102,7 @@ impl World {
                 }
             }
             Action::Settle => self.settle(ctx),
+            Action::Settle0(id) => self.settle_node(id as usize - 1, ctx).is_some(),
             Action::Isolate(id) => {
                 self.net.retain(|(f, t), _| *f != id && *t != id);
                 true
@@ -1383,41 +1384,59 @@ impl World {
         true
     }
 
+    /// Processes every pending Ready / persistence / apply of node i. Some(progressed) or
+    /// None if a call panicked.
+    pub fn settle_node(&mut self, i: usize, ctx: &mut Ctx) -> Option<bool> {
+        let mut progressed = false;
+        for _ in 0..1000 {
+            let mut again = false;
+            while self.live(i).map(|l| l.rn.has_ready()).unwrap_or(false) {
+                again = true;
+                let ok = match self.cfg(i).mode {
+                    AppMode::Sync => self.ready_sync(i, Cut::None, ctx),
+                    AppMode::Async => {
+                        if !self.ready_async(i, ctx) {
+                            return None;
+                        }
+                        let k = self.live(i).unwrap().held.len();
+                        self.persist_async(i, k, ctx)
+                    }
+                };
+                if !ok {
+                    return None;
+                }
+            }
+            if let Some(l) = self.live(i) {
+                if !l.held.is_empty() {
+                    let k = l.held.len();
+                    if !self.persist_async(i, k, ctx) {
+                        return None;
+                    }
+                    again = true;
+                }
+            }
+            while self.live(i).map(|l| !l.to_apply.is_empty()).unwrap_or(false) {
+                if !self.apply_inner(&Action::ApplyNext(i as u8 + 1), ctx) {
+                    return None;
+                }
+                again = true;
+            }
+            if !again {
+                return Some(progressed);
+            }
+            progressed = true;
+        }
+        panic!("settle_node did not reach quiescence");
+    }
+
     /// Prefix helper: deliver everything FIFO and process every Ready until quiescent.
     pub fn settle(&mut self, ctx: &mut Ctx) -> bool {
         for _round in 0..10_000 {
             let mut progressed = false;
             for i in 0..self.n() {
-                while self.live(i).map(|l| l.rn.has_ready()).unwrap_or(false) {
-                    progressed = true;
-                    let ok = match self.cfg(i).mode {
-                        AppMode::Sync => self.ready_sync(i, Cut::None, ctx),
-                        AppMode::Async => {
-                            if !self.ready_async(i, ctx) {
-                                return false;
-                            }
-                            let k = self.live(i).unwrap().held.len();
-                            self.persist_async(i, k, ctx)
-                        }
-                    };
-                    if !ok {
-                        return false;
-                    }
-                }
-                if let Some(l) = self.live(i) {
-                    if !l.held.is_empty() {
-                        let k = l.held.len();
-                        if !self.persist_async(i, k, ctx) {
-                            return false;
-                        }
-                        progressed = true;
-                    }
-                }
-                while self.live(i).map(|l| !l.to_apply.is_empty()).unwrap_or(false) {
-                    if !self.apply(&Action::ApplyNext(i as u8 + 1), ctx) {
-                        return false;
-                    }
-                    progressed = true;
+                match self.settle_node(i, ctx) {
+                    None => return false,
+                    Some(p) => progressed |= p,
                 }
             }
             let keys: Vec<(u8, u8)> = self.net.keys().cloned().collect();
@@ -1427,7 +1446,7 @@ impl World {
                 }
                 if self.net.contains_key(&k) {
                     progressed = true;
-                    if !self.apply(&Action::Deliver(k.0, k.1), ctx) {
+                    if !self.apply_inner(&Action::Deliver(k.0, k.1), ctx) {
                         return false;
                     }
                 }
